@@ -450,6 +450,18 @@ func (e *evaluator) inlineable(g *Func) bool {
 			}
 		}
 	}
+	// unexported one-line value helpers (an expression given a name, e.g. a point in time computed from a record and
+	// module parameters): the call is its expression over the arguments
+	if n == 1 && len(g.Res) == 1 && len(ret.Results) == 1 && g.Obj != nil && !g.Obj.Exported() && g.pkgName() == "keeper" {
+		T := g.Res[0].Type()
+		_, isSlice := T.Underlying().(*types.Slice)
+		b, isBasic := T.Underlying().(*types.Basic)
+		if !isErrorType(T) && !isSlice && !(isBasic && b.Kind() == types.Bool) {
+			if _, isCall := ast.Unparen(ret.Results[0]).(*ast.CallExpr); isCall {
+				return true
+			}
+		}
+	}
 	// only constructors (composite literal results) and iterator wrappers
 	for _, r := range g.Res {
 		T := r.Type()
